@@ -125,6 +125,19 @@ def saveload_job(R, dtype='int64', stride=1, subset=None, rect=False):
                     bad.append('loaded rows differ from saved rows (order / values / stride)')
                 if str(dt) != dtype:
                     bad.append('element type changed')
+                if not bad and stride > 1 and subset is None:
+                    # the same scenario with rows longer than a real PyTables chunk (the store stub uses 2-row chunks)
+                    with core.concrete_mode():
+                        big = [np.arange(16384 + 5, dtype=dtype), np.arange(10000, dtype=dtype) + 7]
+                        fn2 = os.path.join(d, 'big.h5')
+                        try:
+                            ra.save(fn2, ra.RaggedArray(big))
+                            b3 = ra.load(fn2, stride=stride)
+                            g3 = [np.asarray(r).tolist() for r in b3._array]
+                            if g3 != [r[::stride].tolist() for r in big]:
+                                bad.append('loaded rows differ from saved rows (rows longer than one storage chunk, stride %d)' % stride)
+                        except Exception as e:
+                            bad.append('load of rows longer than one storage chunk raises %s' % type(e).__name__)
                 out['out'] = got[:4]
                 out['violated'] = bad
                 return out
